@@ -4,14 +4,20 @@ package proxy
 
 import (
 	"context"
+	"io"
 	"net"
 	"strconv"
 	"sync/atomic"
 
+	pp "github.com/pires/go-proxyproto"
+	"golang.org/x/time/rate"
+
 	"github.com/fatedier/frp/client/event"
+	"github.com/fatedier/frp/pkg/config/types"
 	v1 "github.com/fatedier/frp/pkg/config/v1"
 	"github.com/fatedier/frp/pkg/msg"
 	"github.com/fatedier/frp/pkg/transport"
+	"github.com/fatedier/frp/pkg/util/limit"
 	"github.com/fatedier/frp/pkg/vnet"
 	"github.com/fatedier/frp/verif"
 )
@@ -76,6 +82,34 @@ func verifSpec_factory(base *BaseProxy, cfg v1.ProxyConfigurer) Proxy {
 //verif:preserves H.client.proxy.Wrapper. H.client.proxy.Manager. ChClosed@H.client.proxy.Wrapper. map_LstringR_Pclient.proxy.Wrapper map_LstringR_pkg.config.v1.ProxyConfigurer H.client.Control. H.client.SessionContext. ChClosed@H.client.Control. H.client.visitor.Manager. ChClosed@H.client.visitor.Manager.
 func verif_Proxy_SetInWorkConnCallback(p Proxy, cb func(*v1.ProxyBaseConfig, net.Conn, *msg.StartWorkConn) bool) {
 	p.SetInWorkConnCallback(cb)
+}
+
+// C01 "limiter created only for the side named by bandwidthLimitMode": the
+// client builds a limiter exactly when the limit is positive and the mode is
+// "client", with rate = burst = the configured bytes, for the proxy it builds.
+//
+//verif:contract ~/client/proxy.NewProxy
+//verif:props C01
+func verif_client_NewProxy(ctx context.Context, pxyConf v1.ProxyConfigurer, clientCfg *v1.ClientCommonConfig, tr transport.MessageTransporter, vc *vnet.Controller) {
+	verif.Requires(pxyConf != nil, "configuration_present")
+	b := pxyConf.GetBaseConfig()
+	limit := b.Transport.BandwidthLimit.Bytes()
+	limited := limit > 0 && b.Transport.BandwidthLimitMode == types.BandwidthLimitModeClient
+	verif.ResetEvents()
+	_ = NewProxy(ctx, pxyConf, clientCfg, tr, vc)
+	const evLim = "rate.NewLimiter"
+	verif.Ensures(verif.Called(evLim) == limited, "limiter_iff_client_side_limit_configured")
+	if limited {
+		verif.Ensures(verif.CalledWith(evLim, 1, int(limit)) && float64(verif.NthArg[rate.Limit](evLim, 0, 0)) == float64(limit), "rate_and_burst_are_the_configured_bytes")
+	}
+	if verif.Called("dyncall:client/proxy.verifSpec_factory") {
+		base := verif.NthArg[*BaseProxy]("dyncall:client/proxy.verifSpec_factory", 0, 0)
+		if limited {
+			verif.Ensures(base.limiter == verif.Ret[*rate.Limiter](evLim, 0), "proxy_gets_that_limiter")
+		} else {
+			verif.Ensures(base.limiter == nil, "no_limiter_otherwise")
+		}
+	}
 }
 
 const (
@@ -401,34 +435,44 @@ func verif_HandleTCPWorkConnection(pxy *BaseProxy, workConn net.Conn, m *msg.Sta
 	enc, comp := pxy.baseCfg.Transport.UseEncryption, pxy.baseCfg.Transport.UseCompression
 	wantPP := pxy.baseCfg.Transport.ProxyProtocolVersion != "" && m.SrcAddr != "" && m.SrcPort != 0
 	local := net.JoinHostPort(pxy.baseCfg.LocalIP, strconv.Itoa(pxy.baseCfg.LocalPort))
-	limited, plugged := pxy.limiter != nil, pxy.proxyPlugin != nil
+	lim := pxy.limiter
+	limited, plugged := lim != nil, pxy.proxyPlugin != nil
+	src := net.JoinHostPort(m.SrcAddr, strconv.Itoa(int(m.SrcPort)))
 	verif.ResetEvents()
 	pxy.HandleTCPWorkConnection(workConn, m, encKey)
 	if verif.Called(evJoin) {
 		verif.Ensures(!plugged, "joined_only_without_plugin")
 		verif.Ensures(verif.Called(evEnc) == enc && verif.Called(evComp) == comp, "layers_iff_configured")
 		var below any = workConn
+		if limited {
+			// the byte-preserving limiter sits directly on the work connection, in
+			// both directions, and everything else is stacked on top of it
+			verif.Ensures(verif.Same(verif.NthArg[any]("limit.NewReader", 0, 0), below) && verif.Same(verif.NthArg[any]("limit.NewWriter", 0, 0), below) && verif.CalledWith("limit.NewReader", 1, lim) && verif.CalledWith("limit.NewWriter", 1, lim), "limiter_directly_on_the_work_connection_in_both_directions")
+			verif.Ensures(verif.CalledWith("golib/io.WrapReadWriteCloser", 0, io.Reader(verif.Ret[*limit.Reader]("limit.NewReader", 0))) && verif.CalledWith("golib/io.WrapReadWriteCloser", 1, io.Writer(verif.Ret[*limit.Writer]("limit.NewWriter", 0))), "limited_stream_built_from_both")
+			below = verif.Ret[any]("golib/io.WrapReadWriteCloser", 0)
+		} else {
+			verif.Ensures(!verif.Called("limit.NewReader") && !verif.Called("limit.NewWriter"), "no_limiter_without_a_limit")
+		}
 		if enc {
-			if !limited {
-				verif.Ensures(verif.Same(verif.NthArg[any](evEnc, 0, 0), below), "encryption_directly_on_the_work_connection")
-			}
+			verif.Ensures(verif.Same(verif.NthArg[any](evEnc, 0, 0), below), "encryption_directly_on_the_work_connection")
 			verif.Ensures(verif.CalledWith(evEnc, 1, encKey), "encryption_keyed_by_the_callers_key")
 			below = verif.Ret[any](evEnc, 0)
 		}
 		if comp {
-			if enc || !limited {
-				verif.Ensures(verif.Same(verif.NthArg[any](evComp, 0, 0), below), "compression_directly_above")
-			}
+			verif.Ensures(verif.Same(verif.NthArg[any](evComp, 0, 0), below), "compression_directly_above")
 			below = verif.Ret[any](evComp, 0)
 		}
-		if enc || comp || !limited {
-			verif.Ensures(verif.Same(verif.NthArg[any](evJoin, 0, 1), below), "top_of_the_stack_is_joined")
-		}
+		verif.Ensures(verif.Same(verif.NthArg[any](evJoin, 0, 1), below), "top_of_the_stack_is_joined")
 		verif.Ensures(verif.CalledWith(evDial, 0, local) && verif.RetErr(evDial, 1) == nil, "backend_is_the_configured_local_address")
 		verif.Ensures(verif.Same(verif.NthArg[any](evJoin, 0, 0), any(verif.Ret[net.Conn](evDial, 0))), "joined_with_the_backend_connection")
 		verif.Ensures(verif.Called(evPPOut) == wantPP, "proxy_protocol_header_iff_configured_and_address_known")
 		if wantPP {
 			verif.Ensures(verif.CalledBefore(evPPOut, evJoin) && verif.RetErr(evPPOut, 1) == nil, "header_written_before_any_tunnel_byte")
+			// "the declared proxy-protocol header ... carries the user's true source
+			// address": source = the address and port the server reported
+			h := verif.NthArg[*pp.Header](evPPOut, 0, 0)
+			verif.Ensures(verif.CalledWith("net.ResolveTCPAddr", 1, src) && verif.Same(h.SourceAddr, net.Addr(verif.NthRet[*net.TCPAddr]("net.ResolveTCPAddr", 0, 0))), "header_carries_the_users_source_address_and_port")
+			verif.Ensures(verif.Same(h.DestinationAddr, net.Addr(verif.NthRet[*net.TCPAddr]("net.ResolveTCPAddr", 1, 0))), "header_carries_the_destination_address")
 		}
 		verif.Ensures(verif.CallCount(evJoin) == 1, "joined_once")
 	} else if !plugged {
